@@ -282,6 +282,24 @@ def canonical_inputs() -> list[tuple[bytes, str]]:
                         two = bytearray(one)
                         two[i + fields[b2]] = vb
                         out.append((bytes(two), "canonical"))
+    # every 32-bit register of one genuine message per meter re-tagged as another four-octet type of the data model, with the bit
+    # patterns that are special for it (float32 NaN / infinity / -0.0 / denormal, int32 minimum, all ones): the list stays aligned
+    done = set()
+    for name in sorted(fixtures.DLMS):
+        fam, form, hx = fixtures.DLMS[name]
+        raw = bytes.fromhex(hx)
+        if (fam, form) in done or len(raw) < 30:
+            continue
+        done.add((fam, form))
+        positions = [i for i in range(len(raw) - 5) if raw[i] == 0x06 and raw[i + 5] in (0x02, 0x06, 0x09, 0x0A, 0x12, 0x10, 0x0F)][:12]
+        for i in positions:
+            for tag, pats in ((0x17, (b"\x7f\xc0\x00\x00", b"\xff\xc0\x00\x01", b"\x7f\x80\x00\x00", b"\xff\x80\x00\x00", b"\x80\x00\x00\x00", b"\x00\x00\x00\x01", b"\x7f\x7f\xff\xff")),
+                              (0x05, (b"\x80\x00\x00\x00", b"\xff\xff\xff\xff")), (0x06, (b"\xff\xff\xff\xff",))):
+                for pat in pats:
+                    b = bytearray(raw)
+                    b[i] = tag
+                    b[i + 1 : i + 5] = pat
+                    out.append((bytes(b), "canonical"))
     for depth in (10, 20, 30, 40, 60):
         body = b"\x0f\x00"
         for _ in range(depth):
